@@ -214,11 +214,16 @@ def run_par(desc, c, e, add, rng):
         i = int(np.nanargmax(np.abs(np.nan_to_num(u_ref) - np.nan_to_num(u_out)))) if u_ref.shape == u_out.shape else -1
         add("parallel-utilities-differ-from-inner", "n_jobs=%s backend=%s: position %d: %r (wrapper) vs %r (inner)" % (
             nj, desc["backend"], i, u_out[i] if i >= 0 else u_out.shape, u_ref[i] if i >= 0 else u_ref.shape))
-    elif (_unique_best(u_ref) or e.name not in TIE_RNG_DIFFERS) and np.asarray(out[0]).tolist() != np.asarray(ref[0]).tolist():
+    elif (_unique_best(u_ref) or (e.name not in TIE_RNG_DIFFERS and np.array_equal(u_ref, u_out, equal_nan=True))) \
+            and np.asarray(out[0]).tolist() != np.asarray(ref[0]).tolist():
+        # near-ties (utilities equal within the tolerance but not bit for bit, e.g. round-off noise around 0 that depends
+        # on the chunk a candidate is scored in) leave the arg max undetermined: the selection is compared when the best
+        # candidate is unique or the utilities agree exactly
         # equal seeds: the wrapper breaks ties with the first draw of its derived generator, exactly as a wrapped strategy
         # that draws nothing before its own selection
-        add("parallel-selection-differs-from-inner", "%s vs %s (unique best: %s)" % (
-            np.asarray(out[0]).tolist(), np.asarray(ref[0]).tolist(), _unique_best(u_ref)))
+        fin = ~np.isnan(u_ref)
+        add("parallel-selection-differs-from-inner", "%s vs %s (unique best: %s); utilities wrapper %r inner %r" % (
+            np.asarray(out[0]).tolist(), np.asarray(ref[0]).tolist(), _unique_best(u_ref), u_out[fin].tolist(), u_ref[fin].tolist()))
     chunks = 0
     # the jobs work on copies of the strategy, so the chunk calls are observed through the class-level query contract
     inner_recs = [r for r in ct.drain() if r["cls"] == e.cls.__name__ and "n_cand" in r]
